@@ -2,25 +2,31 @@ import OFCore.Heap
 /-! Line protocol for the `heap` domain (clone / non-interference, property C13). Mathlib-free.
 
 ```
-heap run <sys> <spec> <pre> <trace> <ops>
-    -> <alias graph>|<step>|<step>|…        or ERR (the model could not build / clone)
-sys   = <var>;<var>;…          var  = <entity>:<unit>:<default>:<formula>
+heap run <sys> <spec> <pre> <td> <events>
+    -> <alias graph>;<obs of every simulation>|<step>|<step>|…        or ERR (the model could not build / clone)
+sys   = <var>;<var>;…          var  = <entity>:<unit>[~<type>][!]:<default>:<formula>
+                               (~type: value type of the real variable, ignored by the model; ! = in cache_blacklist)
                                formula = - | <const>{+<coef>*<dep>.<via>.<pt>}   pt = s|l
-                               via = s | m | p | mr<role> | nb<role> | hr<g>_<role>      role = <flat>{_<flat>}
-                               (role-filtered sum of the members, nb_persons(role), has_role(role of entity g);
-                                a role is the set of flattened roles satisfying it: 0_1 | 0 | 1 | 2 | 3)
-spec  = <persons>/<groups>/<mem>   groups = - | <entity>:<count>:<g.g.g…>:<roles>,…   (g = group index of each person,
-                               roles = - (never assigned) | <flat>.<flat>… (flattened role of each person))
-                               mem = - | d | d<v>.<v>…   (MemoryConfig(max_memory_occupation=0, priority_variables))
-pre   = - | <op>;<op>…         operations on the original before `clone(trace=<trace>)`
-ops   = - | <side><op>;…       side = o | c
+                               via = s | m | p | mr<role> | nb<role> | hr<g>_<role> | pa      role = <flat>{_<flat>}
+                               (role-filtered sum of the members, nb_persons(role), has_role(role of entity g), the
+                                parameter p0; a role is the set of flattened roles satisfying it: 0_1 | 0 | 1 | 2 | 3)
+spec  = <persons>/<groups>/<mem>/<cfg>
+                               groups = - | <entity>:<count>:<g.g.g…>:<roles>:<positions>,…   (g = group index of each person,
+                               roles = - (never assigned) | <flat>.<flat>…, positions = - (never assigned) | <k>.<k>…)
+                               mem = - | d<v>.<v>…[x<v>.<v>…]   (MemoryConfig(max_memory_occupation=0, priority_variables, variables_to_drop))
+                               cfg = o<0|1>m<k>       (opt_out_cache, max_spiral_loops)
+pre   = - | <op>;<op>…         calls on the original before the first `clone(trace=t, debug=d)`; td = <t><d>
+events = - | <side><op>;…      side = o (the original) | c (its first clone) | 2 | 3 | … (later clones, in order of creation)
 op    = s:<v>:<period>:<x,x,…> | d:<v>:<period|*> | k:<v>:<period> | a:<v>:<period> | t:<0|1> | h:<v>
+      | g:<v>:<period>                        set_input with an array whose dtype cannot be cast
+      | r:<v>:<period>:<side>:<w>:<q>         set_input with the array object <side> holds for (w, q); `none` if it holds none
+      | n:<t><d>                              clone this simulation (the answer is the alias graph of parent `o.` and child `c.`)
 period = eternity | <unit>/<y>,<m>,<d>/<size>
-step  = <result>;O<obs>;C<obs>       result = ok | ERR | <x,x,…> | 0 (the empty sum of calculate_add)
+step  = <result>;<obs>;<obs>;…     one <obs> per live simulation;  result = ok | ERR | <x,x,…> | 0 | none | <alias graph>
 ```
-The alias graph lists, for every reference field of the original and of the clone, the canonical
+The alias graph lists, for every reference field of the parent and of the clone, the canonical
 name of the object it designates (objects are named by the first path that reaches them, the
-original's paths first): a field of the clone whose target is named `o.…` is shared. -/
+parent's paths first): a field of the clone whose target is named `o.…` is shared. -/
 namespace OFCore.Drv
 open OFCore OFCore.Heap
 
@@ -64,6 +70,7 @@ def parseVia? (via : String) : Option Via :=
       let r ← parseRole? ("_".intercalate rest)
       pure (Via.hasRole g r)
     | [] => none
+  else if via = "pa" then some Via.param
   else none
 
 def parseTerm? (s : String) : Option Term :=
@@ -88,34 +95,64 @@ def parseFormula? (s : String) : Option (Option (Int × List Term)) :=
 
 def parseVar? (s : String) : Option VarDecl :=
   match s.splitOn ":" with
-  | [e, u, d, f] => do pure ⟨← e.toNat?, ← DUnit.ofName u, ← d.toInt?, ← parseFormula? f⟩
+  | [e, u, d, f] => do
+    let bl := u.endsWith "!"
+    let u := if bl then (u.dropEnd 1).toString else u
+    let u := (u.splitOn "~").headD ""
+    pure { entity := ← e.toNat?, defPeriod := ← DUnit.ofName u, dflt := ← d.toInt?, formula := ← parseFormula? f,
+           blacklisted := bl }
   | _ => none
 
 def parseSys? (s : String) : Option Sys := hAllSome ((splitList s ";").map parseVar?)
 
 def parseGroup? (s : String) : Option GroupSpec :=
   match s.splitOn ":" with
-  | [e, n, ms, rs] => do
+  | [e, n, ms, rs, ps] => do
     let roles ← (if rs = "-" then some none else (parseNatsDot? rs).map some)
-    pure ⟨← e.toNat?, ← n.toNat?, ← parseNatsDot? ms, roles⟩
+    let poss ← (if ps = "-" then some none else (parseNatsDot? ps).map some)
+    pure ⟨← e.toNat?, ← n.toNat?, ← parseNatsDot? ms, roles, poss⟩
   | _ => none
 
 def parseMem? (s : String) : Option (Option MemConfig) :=
   if s = "-" then some none
-  else if s.startsWith "d" then do
-    let vs ← parseNatsDot? (s.drop 1).toString
-    pure (some ⟨vs⟩)
+  else if s.startsWith "d" then
+    match (s.drop 1).toString.splitOn "x" with
+    | [a] => do pure (some ⟨← parseNatsDot? a, []⟩)
+    | [a, b] => do pure (some ⟨← parseNatsDot? a, ← parseNatsDot? b⟩)
+    | _ => none
   else none
 
 def parseSpec? (s : String) : Option SimSpec :=
   match s.splitOn "/" with
-  | [n, gs, m] => do
+  | [n, gs, m, cfg] => do
     let gs ← hAllSome ((splitList gs ",").map parseGroup?)
-    pure ⟨← n.toNat?, gs, ← parseMem? m⟩
+    let (oo, msl) ← (match cfg.splitOn "m" with
+      | [o, k] => do
+        let oo ← (if o = "o1" then some true else if o = "o0" then some false else none)
+        pure (oo, ← k.toNat?)
+      | _ => none)
+    pure ⟨← n.toNat?, gs, ← parseMem? m, oo, msl⟩
   | _ => none
+
+/-- a step of a history: a call, a call fed with an array read from another simulation, or a clone -/
+inductive Event where
+  | call (op : Op)
+  | setFrom (v : Var) (p : Period) (src : Nat) (w : Var) (q : Period)
+  | clone (trace debug : Bool)
+
+def parseSide? (s : String) : Option Nat :=
+  if s = "o" then some 0 else if s = "c" then some 1 else
+  match s.toNat? with
+  | some n => if 2 ≤ n ∧ n ≤ 9 ∧ s.length = 1 then some n else none
+  | none => none
+
+def parseFlags? (s : String) : Option (Bool × Bool) :=
+  if s = "00" then some (false, false) else if s = "10" then some (true, false)
+  else if s = "01" then some (false, true) else if s = "11" then some (true, true) else none
 
 def parseOp? (s : String) : Option Op :=
   match s.splitOn ":" with
+  | ["g", v, p] => do pure (.setBad (← v.toNat?) (← hParsePeriod? p))
   | ["s", v, p, xs] => do pure (.setInput (← v.toNat?) (← hParsePeriod? p) (← parseInts? xs))
   | ["d", v, p] => do
     let v ← v.toNat?
@@ -126,10 +163,16 @@ def parseOp? (s : String) : Option Op :=
   | ["h", v] => do pure (.touch (← v.toNat?))
   | _ => none
 
-def parseSideOp? (s : String) : Option (Side × Op) :=
-  if s.startsWith "o" then (parseOp? (s.drop 1).toString).map (fun o => (Side.orig, o))
-  else if s.startsWith "c" then (parseOp? (s.drop 1).toString).map (fun o => (Side.clone, o))
-  else none
+def parseEvent? (s : String) : Option (Nat × Event) := do
+  let side ← parseSide? (s.take 1).toString
+  let rest := (s.drop 1).toString
+  match rest.splitOn ":" with
+  | ["n", fl] => do
+    let (t, d) ← parseFlags? fl
+    pure (side, .clone t d)
+  | ["r", v, p, src, w, q] => do
+    pure (side, .setFrom (← v.toNat?) (← hParsePeriod? p) (← parseSide? src) (← w.toNat?) (← hParsePeriod? q))
+  | _ => do pure (side, .call (← parseOp? rest))
 
 /-! ### printing -/
 
@@ -147,14 +190,17 @@ def showHolderObs (o : HolderObs) : String :=
 
 def showPopObs (o : PopObs) : String :=
   let hs := (o.holders.mergeSort (fun a b => decide (a.var ≤ b.var))).map showHolderObs
-  s!"e{o.entity}:{showB o.ownSim}{showB o.ownMembers}:n{o.count}:" ++ ".".intercalate (o.membersEntityId.map toString)
+  s!"e{o.entity}:{showB o.ownSim}{showB o.ownMembers}:n{o.count}:i" ++ ".".intercalate (o.ids.map toString) ++ ":"
+    ++ ".".intercalate (o.membersEntityId.map toString)
     ++ (if o.entity = 0 then "" else
-        ":r" ++ ".".intercalate (o.roles.map toString) ++ ":c" ++ "/".intercalate (o.roleCounts.map showVec))
+        ":r" ++ ".".intercalate (o.roles.map toString) ++ ":p" ++ ".".intercalate (o.positions.map toString)
+        ++ ":m" ++ ".".intercalate (o.orderedMap.map toString)
+        ++ ":c" ++ "/".intercalate (o.roleCounts.map showVec))
     ++ ":[" ++ " ".intercalate hs ++ "]"
 
 def showObs (o : Obs) : String :=
   let pops := (o.pops.mergeSort (fun a b => decide (a.entity ≤ b.entity))).map showPopObs
-  s!"t{showB o.trace}{showB o.full}[" ++ " ".intercalate (o.roots.map showKey) ++ "]s" ++ toString o.stack.length
+  s!"d{showB o.debug}o{showB o.optOut}m{o.msl}t{showB o.trace}{showB o.full}[" ++ " ".intercalate (o.roots.map showKey) ++ "]s" ++ toString o.stack.length
     ++ "i[" ++ " ".intercalate (sortStrings (o.inval.map showKey)) ++ "]p" ++ showB o.personsListed
     ++ "{" ++ " ".intercalate pops ++ "}"
 
@@ -241,19 +287,42 @@ def aliasGraph (h : Heap) (s c : Id) : String :=
 
 def fuelDefault : Nat := 40
 
-def runSteps (sys : Sys) (s c : Id) : List (Side × Op) → Heap → List String
-  | [], _ => []
-  | (sd, op) :: rest, h =>
-    let (r, h1) := step sys fuelDefault (sideId s c sd) op h
-    (showRes r ++ ";O" ++ showObsOf h1 s ++ ";C" ++ showObsOf h1 c) :: runSteps sys s c rest h1
+def showAll (h : Heap) (sims : List Id) : String := ";".intercalate (sims.map (showObsOf h))
+
+def runEvents (sys : Sys) : List (Nat × Event) → Heap → List Id → List String
+  | [], _, _ => []
+  | (side, ev) :: rest, h, sims =>
+    match sims[side]? with
+    | none => ["BAD"]
+    | some x =>
+      match ev with
+      | .call op =>
+        let (r, h1) := step sys fuelDefault x op h
+        (showRes r ++ ";" ++ showAll h1 sims) :: runEvents sys rest h1 sims
+      | .setFrom v p src w q =>
+        match sims[src]? with
+        | none => ["BAD"]
+        | some y =>
+          match (readValue sys y w q h).1 with
+          | .ok (some a) =>
+            let (r, h1) := step sys fuelDefault x (.setInput v p a) h
+            (showRes r ++ ";" ++ showAll h1 sims) :: runEvents sys rest h1 sims
+          | _ => ("none;" ++ showAll h sims) :: runEvents sys rest h sims
+      | .clone t d =>
+        match cloneSim x t d h with
+        | (.error _, _) => ["ERR"]
+        | (.ok c, h1) =>
+          (aliasGraph h1 x c ++ ";" ++ showAll h1 (sims ++ [c])) :: runEvents sys rest h1 (sims ++ [c])
 
 /-- what the adapter refuses as well: group entities ≥ 1 and distinct, variables in declared entities,
-one group index below the group count per person -/
+one group index below the group count per person, roles and positions of the right length, role reads
+on the right kind of variable -/
 def wellFormed (sys : Sys) (spec : SimSpec) : Bool :=
   let ks := spec.groups.map (fun g => g.entity)
   ks.all (fun k => k ≠ 0) && ks.Nodup
   && spec.groups.all (fun g => g.membersEntityId.length = spec.persons && g.membersEntityId.all (fun i => i < g.count)
-      && (match g.roles with | none => true | some rs => rs.length = spec.persons && rs.all (fun r => r < 4)))
+      && (match g.roles with | none => true | some rs => rs.length = spec.persons && rs.all (fun r => r < 4))
+      && (match g.positions with | none => true | some ps => ps.length = spec.persons))
   && sys.all (fun d => (d.entity = 0 || ks.contains d.entity) &&
       (match d.formula with
        | none => true
@@ -261,25 +330,22 @@ def wellFormed (sys : Sys) (spec : SimSpec) : Bool :=
           | .hasRole g _ => ks.contains g && d.entity = 0
           | .membersRole _ => d.entity ≠ 0
           | .nbPersons _ => d.entity ≠ 0
-          | .same => true | .members => true | .project => true)))
+          | .same => true | .members => true | .project => true | .param => true)))
 
 def handleHeap (args : List String) : String :=
   match args with
-  | ["run", sys, spec, pre, tr, ops] =>
+  | ["run", sys, spec, pre, td, evs] =>
     match parseSys? sys, parseSpec? spec, hAllSome ((splitList pre ";").map parseOp?),
-          hAllSome ((splitList ops ";").map parseSideOp?) with
-    | some sys, some spec, some pre, some ops =>
-      if tr ≠ "0" ∧ tr ≠ "1" then "BAD" else
+          hAllSome ((splitList evs ";").map parseEvent?), parseFlags? td with
+    | some sys, some spec, some pre, some evs, some (t, d) =>
       if !wellFormed sys spec then "BAD" else
       match build spec [] with
       | (.error _, _) => "ERR"
       | (.ok s, h0) =>
         let h1 := runSide sys fuelDefault s pre h0
-        match cloneSim s (tr = "1") false h1 with
-        | (.error _, _) => "ERR"
-        | (.ok c, h2) =>
-          "|".intercalate ((aliasGraph h2 s c ++ ";O" ++ showObsOf h2 s ++ ";C" ++ showObsOf h2 c) :: runSteps sys s c ops h2)
-    | _, _, _, _ => "BAD"
+        let out := runEvents sys ((0, Event.clone t d) :: evs) h1 [s]
+        if out.contains "BAD" then "BAD" else if out.contains "ERR" then "ERR" else "|".intercalate out
+    | _, _, _, _, _ => "BAD"
   | _ => "BAD"
 
 end OFCore.Drv
